@@ -115,6 +115,39 @@ Theorem c12_swarm_trace_holds : forall da ops,
 Proof. exact swarm_trace_holds_l. Qed.
 Print Assumptions c12_swarm_trace_holds.
 
+(* HEADLINE for case lines as they are replayed: the same, for every list of WIRE steps — a plain
+   operation, or wire op 15: a call starts and a non-limited connection arrives while the call
+   runs (the harness hands it to addConn when the call has looked at the connection list inside
+   waitForDirectConn and has not registered yet).  The model runs that step as "the call, then
+   the connection"; the monitor is told "a non-limited connection arrived" and judges the
+   observation taken afterwards against the one taken before the call started. *)
+Theorem c12_swarm_wire_trace_holds : forall da ws,
+  monitor_run obs_init 0 (model_wtrace (init_state da) ws) = [].
+Proof. exact swarm_wtrace_holds_l. Qed.
+Print Assumptions c12_swarm_wire_trace_holds.
+
+(* "every timing of a direct connection appearing while a stream open is waiting": after a
+   wire step 15, if the connection that arrived is usable, nobody is left on the waiter list —
+   neither the new call nor any earlier waiter *)
+Theorem c12_conn_arriving_during_a_call_wakes_it : forall da s d a f n proxy,
+  reachable da s -> pending s = [] ->
+  let x := apply_wstep s (WRace d a f n proxy) in
+  usable (get_conn (conns x) (length (conns s))) = true -> waiters x = [].
+Proof. exact race_no_waiter_l. Qed.
+Print Assumptions c12_conn_arriving_during_a_call_wakes_it.
+
+(* "every context option set": WithForceDirectDial with the EMPTY reason string (wire value 2)
+   is the same request as with a reason (wire value 1), for NewStream/DialPeer (4),
+   BasicHost.Connect (12) and the racing call (15); and the option bit the harness reports for
+   such a call is "force-direct" *)
+Theorem c12_force_direct_reason_is_informational : forall d a n p r c,
+  decode_wstep (4 :: d :: a :: 2 :: n :: r)%Z = decode_wstep (4 :: d :: a :: 1 :: n :: r)%Z /\
+  decode_wstep (12 :: a :: 2 :: n :: r)%Z = decode_wstep (12 :: a :: 1 :: n :: r)%Z /\
+  decode_wstep (15 :: d :: a :: 2 :: n :: p :: r)%Z = decode_wstep (15 :: d :: a :: 1 :: n :: p :: r)%Z /\
+  co_force (call_of_z [c; 0; 4]%Z) = true.
+Proof. exact reason_ignored_l. Qed.
+Print Assumptions c12_force_direct_reason_is_informational.
+
 (* "every call runs until it blocks": the runner terminates in a state where no
    call can take a step (each call step strictly lowers the rank sum), whatever
    the state and the stimulus. *)
@@ -214,6 +247,27 @@ Proof. vm_compute. discriminate. Qed.
 Example monitor_rejects_force_connect_over_relay :
   monitor_case [0; 1;  1; 1; 1;  0; 0; 2; 1; 7; 0; 0;   12; 1; 1; 0;  0; 0; 2; 1; 7; 1; 6; 0; 23; 0]%Z <> [].
 Proof. vm_compute. discriminate. Qed.
+
+(* wire op 15 on the model: the call that started while the direct connection arrived is
+   opening its stream on that connection (conn 1), nobody waits *)
+Example race_call_gets_the_direct_conn :
+  let x := obs_of (apply_wstep (apply_op (init_state 1) (OAdd true true)) (WRace false false false false false)) in
+  map (fun c => (co_st c, co_arg c)) (o_calls x) = [(2, 1)] /\ o_nw x = 0.
+Proof. vm_compute. split; reflexivity. Qed.
+
+(* the monitor rejects a lost wake-up: the direct connection arrived while the call was between
+   its look at the connection list and its registration, and the call is still waiting (clause 3) *)
+Example monitor_rejects_lost_wakeup :
+  monitor_case [0; 1;  1; 1; 1;  0; 0; 2; 1; 7; 0; 0;   15; 0; 0; 0; 0; 0;  1; 1; 1; 2; 7; 4; 1; 1; 0; 0; 0]%Z
+  = [ERR_PROPERTY; 1; 3]%Z.
+Proof. vm_compute. reflexivity. Qed.
+
+(* the monitor rejects: a DialPeer demanding a direct connection with the EMPTY reason string
+   is handed the relayed connection (clause 1) *)
+Example monitor_rejects_relayed_conn_for_force_direct_without_reason :
+  monitor_case [0; 1;  1; 1; 1;  0; 0; 2; 1; 7; 0; 0;   4; 1; 0; 2; 0;  0; 0; 2; 1; 7; 1; 4; 0; 5; 0]%Z
+  = [ERR_PROPERTY; 1; 1]%Z.
+Proof. vm_compute. reflexivity. Qed.
 
 (* the hole-punch monitor rejects a punch to a relay address *)
 Example monitor_rejects_punch_to_relay :
